@@ -114,7 +114,9 @@ def render(rng, f, unit, pns, record):
 
 def run_monitor(monitor, text, vs, data, n, unit, period, punit):
     per = int(period) if period.denominator == 1 else float(period)
-    kw = dict(unit=unit, sampling=(per, punit, 0.1))
+    # the baseline rendering of the same durations evaluates in milliseconds: a rendering that does not
+    # come back within 8 s (e.g. a bound blown up by a wrong unit) is reported as an outcome, not a harness error
+    kw = dict(unit=unit, sampling=(per, punit, 0.1), limit=8.0, timeout_is_outcome=True)
     if monitor == "offd":
         o = impl.eval_offline_discrete(text, vs, data, n, **kw)
         return o if o[0] != "ok" else ("ok", [p[1] for p in o[1]])
